@@ -337,7 +337,11 @@ func checkC01(sc *Scenario) *CheckResult {
 		gotReq = nil
 	}
 	if ok, why := isPrefixSeq(gotReq, sent); !ok {
-		if cv.OK || !strings.Contains(why, "undecodable") {
+		if quotedWrapperOnly(gotReq, sent) {
+			// known finding (see C07): a StringValue whose text is a JSON string literal loses its quotes
+			// when it travels as a REST parameter
+			res.violate("request_altered", "c01:request:quoted_stringvalue", "backend observed a request sequence that is not what the client sent: %s", why)
+		} else if cv.OK || !strings.Contains(why, "undecodable") {
 			res.violate("request_altered", "c01:"+featureSig(sc, view, "request"),
 				"backend observed a request sequence that is not what the client sent: %s; backend problems: %v", why, view.Problems)
 		}
@@ -498,4 +502,27 @@ func limitAtFieldBoundary(t *rapid.T, sc *Scenario) {
 		}
 	}
 	sc.Note += "limit_at_boundary;"
+}
+
+
+// quotedWrapperOnly: got equals want once every StringValue of want that is a JSON string literal
+// is replaced by the string it denotes.
+func quotedWrapperOnly(got, want []proto.Message) bool {
+	if len(got) != len(want) || len(got) == 0 {
+		return false
+	}
+	changed := false
+	for i := range got {
+		if got[i] == nil || want[i] == nil {
+			return false
+		}
+		if canon(got[i]) == canon(want[i]) {
+			continue
+		}
+		if canon(dequoteWrapperStrings(want[i])) != canon(got[i]) {
+			return false
+		}
+		changed = true
+	}
+	return changed
 }
